@@ -323,6 +323,40 @@ func TestC18(t *testing.T) {
 		} else if got := v1p.NewDynamoDBMetastore(sess1, v1p.WithDynamoDBRegionSuffix(true)).GetRegionSuffix(); got != region {
 			r.Violation("c18-key-id-shape:dynamodb-v1", fmt.Sprintf("DynamoDB v1 metastore built on a session of region %q with the region-suffix option reports suffix %q", region, got), nil)
 		}
+		// the sidecar's option mapping: --metastore=dynamodb --enable-region-suffix, with the region given explicitly
+		// (--dynamodb-region) or taken from the environment
+		type suffixer interface{ GetRegionSuffix() string }
+		for _, oc := range []struct {
+			name string
+			o    server.Options
+			want string
+		}{
+			{"ambient region", server.Options{Metastore: "dynamodb", EnableRegionSuffix: true}, region},
+			{"explicit region", server.Options{Metastore: "dynamodb", EnableRegionSuffix: true, DynamoDBRegion: "us-east-2"}, "us-east-2"},
+			{"suffix off", server.Options{Metastore: "dynamodb", DynamoDBRegion: "us-east-2"}, ""},
+			{"suffix on, custom table", server.Options{Metastore: "dynamodb", EnableRegionSuffix: true, DynamoDBTableName: "Keys"}, region},
+		} {
+			func() {
+				defer func() {
+					if pv := recover(); pv != nil {
+						r.Inconclusive(fmt.Sprintf("sidecar metastore (%s) cannot be built offline: %v", oc.name, pv))
+					}
+				}()
+				o := oc.o
+				ms := server.NewMetastore(&o)
+				r.Eval(1)
+				sf, ok := ms.(suffixer)
+				if got := map[bool]string{true: "", false: "(no suffix support)"}[ok]; ok {
+					got = sf.GetRegionSuffix()
+					if got != oc.want {
+						r.Violation("c18-key-id-shape:sidecar-dynamodb", fmt.Sprintf("sidecar options (%s, AWS_REGION=%s): the metastore reports region suffix %q, want %q - key ids would not have the documented _IK_partition_service_product[_region] shape peers expect", oc.name, region, got, oc.want), nil)
+					}
+				} else if oc.want != "" {
+					r.Violation("c18-key-id-shape:sidecar-dynamodb", fmt.Sprintf("sidecar options (%s): the metastore does not expose a region suffix", oc.name), nil)
+				}
+				r.Count("sidecar_option_mapping_cases", 1)
+			}()
+		}
 		r.Count("default_client_suffix_cases", 1)
 	}
 	for _, mk := range stores() {
@@ -407,7 +441,10 @@ func TestC18(t *testing.T) {
 				fail("c18-setup", "reference IK row: %v", err)
 				continue
 			}
-			rdoc := refimpl.DRRJSON(h.Encrypt(payload, now))
+			// the data row key's own stamp is informational (another host's clock, or left at zero by a peer that does not
+			// set it): before, at or after the intermediate key's stamp
+			drkCreated := []int64{now, ikc - 3, 0, ikc}[i%4]
+			rdoc := refimpl.DRRJSON(h.Encrypt(payload, drkCreated))
 			var sdkDRR appencryption.DataRowRecord
 			r.Eval(1)
 			if err := json.Unmarshal(rdoc, &sdkDRR); err != nil {
